@@ -361,7 +361,13 @@ func (x *g) genHTTP(sv *spec.Service, m *spec.Method, idx int) {
 							h.Query = append(h.Query, spec.Loc{Attr: a.Name, Wire: wire(queryWire, a.Name)})
 							x.s.AddFeature("apikey-query")
 						} else {
-							h.Headers = append(h.Headers, spec.Loc{Attr: a.Name, Wire: x.r.Pick("X-API-Key", "X-Key", "")})
+							w := x.r.Pick("X-API-Key", "X-Key", "")
+							for _, l := range h.Headers {
+								if w != "" && strings.EqualFold(l.WireName(), w) {
+									w = w + "-" + strings.TrimPrefix(a.Sec, "apikey:") // a second API key scheme needs a header of its own
+								}
+							}
+							h.Headers = append(h.Headers, spec.Loc{Attr: a.Name, Wire: w})
 							x.s.AddFeature("apikey-header")
 						}
 					default:
